@@ -266,10 +266,12 @@ fn rand_call(r: &mut Rng, level: usize, vars: &[&str]) -> String {
     // predicates below `level`: facts f0/1 g0/2 h0/1, rules r{k}a/1 r{k}b/2 for 1 <= k < level
     let k = r.below(level);
     if k == 0 {
-        match r.below(3) {
+        match r.below(5) {
             0 => format!("f0({})", rand_arg(r, vars)),
             1 => format!("g0({}, {})", rand_arg(r, vars), rand_arg(r, vars)),
-            _ => format!("h0({})", rand_arg(r, vars)),
+            2 => format!("h0({})", rand_arg(r, vars)),
+            3 => format!("k0({}, {})", rand_arg(r, vars), rand_arg(r, vars)),
+            _ => format!("w0({})", rand_arg(r, vars)),
         }
     } else if r.below(2) == 0 { format!("r{}a({})", k, rand_arg(r, vars)) }
     else { format!("r{}b({}, {})", k, rand_arg(r, vars), rand_arg(r, vars)) }
@@ -320,6 +322,10 @@ pub fn rand_program(r: &mut Rng, cuts: bool) -> (Vec<String>, String) {
     rules.push("g0(b, b).".into());
     for t in ["[a, 1]", "[b, 2]", "s(a)", "s(2)", "[c, c]"] { if r.below(3) > 0 { rules.push(format!("h0({}).", t)); } }
     rules.push("h0([1, a]).".into());
+    // facts with variables of their own: at top level, and inside a structure or a list (a fact that matches without
+    // growing the substitution set still leaves its renamed variables reachable: seed C01-1)
+    for t in ["k0($A, $A).", "k0(s($C), $D).", "k0([$P, $Q], c).", "w0(s($C)).", "w0([$P, $Q])."] { if r.below(3) > 0 { rules.push(t.to_string()); } }
+    rules.push("w0($A).".into());
     let vars = ["$X", "$Y", "$Z", "$W"];
     for level in 1..=3 {
         let na = 1 + r.below(3);
@@ -535,7 +541,7 @@ pub fn enum_prog_output(seed: u64) -> Vec<String> { prog_cases(seed + 3000, "out
 // from a pool that contains the query's own variable names, so that rules reuse them and each other's names): same answers, same
 // order, same output.  case = program, renamed program, query.
 fn rename_rule(r: &mut Rng, rule: &str) -> String {
-    let pool = ["$Q", "$R", "$X", "$X2", "$A", "$Same", "$V1", "$W"];
+    let pool = ["$Q", "$R", "$X", "$X2", "$A", "$Same", "$V_1", "$V_2", "$X_3", "$W"];
     let olds = ["$X", "$Y", "$Z", "$W"];
     // a random injective map olds -> pool
     let mut picks: Vec<&str> = pool.to_vec();
